@@ -89,6 +89,17 @@ def run_shard(rec, tier, seed, shard, nshards):
 
     for ci in range(n_cfg):
         T, P, sizes, means, hetero, homo, d = gen_config(rng)
+        if rng.random() < 0.12:
+            # integer-typed inputs (counts, 0/1 read-outs, whole-number variances) are numbers like any other
+            which = str(rng.choice(["means", "variances", "first-plate-means", "both"]))
+            if which in ("means", "both"):
+                means = [np.round(m_ * 3).astype(np.int64) for m_ in means]
+            if which == "first-plate-means":
+                means = [np.round(means[0] * 3).astype(np.int64)] + means[1:]
+            if which in ("variances", "both"):
+                hetero = [np.maximum(1, np.round(v_)).astype(np.int64) for v_ in hetero]
+                homo = np.maximum(1, np.round(homo)).astype(np.int64)
+            rec.count("integer_typed_inputs")
         total = comb(T, 3)
         budget = total + int(rng.integers(0, 3))
         nontriv = (P >= 2 and len(set(sizes)) > 1) or T >= 4
